@@ -1006,7 +1006,9 @@ func (t *FnTrans) callWrites(c *ssa.CallCommon, l *loopInfo) {
 		if i := strings.Index(g.Text, "="); i > 0 {
 			name := strings.TrimSpace(g.Text[:i])
 			pk := t.fn.Pkg.Pkg.Path()
-			if gs, ok := t.eng.specs.Ghosts[pk+"."+name]; ok {
+			if _, isLocal := ct.GhostLocal[name]; isLocal {
+				// a ghost local of the callee: not visible to (nor changed for) the caller
+			} else if gs, ok := t.eng.specs.Ghosts[pk+"."+name]; ok {
 				t.w(l, "GG."+pk+"."+name, gs)
 			} else {
 				t.setAll(l, 940)
